@@ -139,6 +139,7 @@ class Engine:
         self.events = []
         self.choices = []     # (label, value) of engine-level choices on this path
         self.nfork = 0
+        self._str_seen = set()
         self.decided = {}     # atoms already decided on this path (the path condition only grows)
 
     # -- variables ----------------------------------------------------------------------
@@ -166,12 +167,50 @@ class Engine:
                 self.rsolver.add(x >= 0)
             self.lin.fresh_nonneg = []
 
+    STRENGTHEN_TAGS = ('sqrt', 'inv', 'let', 'promoted')
+
+    def _strengthen(self, monos, rounds=2, maxdeg=6):
+        """add goal-directed products of the *definitional* hypotheses (sqrt / inverse / let / promoted zeros) to the
+        linearised path solver -- valid consequences, so feasibility stays an over-approximation but loses spurious
+        paths such as 'all normalised weights sum to something other than one'"""
+        hyps = [(i, h) for i, (h, t) in enumerate(zip(self.hyps, self.hyp_tags)) if t in self.STRENGTHEN_TAGS]
+        if not hyps:
+            return
+        frontier = set(m for m in monos if m)
+        for _ in range(rounds):
+            new = set()
+            for g in frontier:
+                for hi, h in hyps:
+                    for m in h:
+                        q = mono_div(m, g)
+                        if q is None or mono_deg(q) > maxdeg:
+                            continue
+                        key = (hi, q)
+                        if key in self._str_seen:
+                            continue
+                        self._str_seen.add(key)
+                        pr = pmulmono(h, q)
+                        self.rsolver.add(self.lin.rexpr(pr) == 0)
+                        self.rmodel = None
+                        for mm in pr:
+                            new.add(mm)
+            frontier = new
+            if not frontier:
+                break
+        self._flush_nonneg()
+
     def _encode(self, a):
         if is_int_poly(a.p):
             return 'i', Lin.rel(self.lin.iexpr(a.p), a.op)
+        if a.op != '!=' :
+            self._strengthen(a.p.keys())
         e = Lin.rel(self.lin.rexpr(a.p), a.op)
         self._flush_nonneg()
         return 'r', e
+
+    def promote_zeros(self):
+        from . import prover
+        return prover.promote_zeros(self)
 
     def _check(self, which, e):
         t = time.time()
